@@ -148,6 +148,8 @@ def check(ctx):
             if (i + r) % 6 == 0:
                 f["recv"] = "T1"
             funcs.append(f)
+    for i in range(2):
+        funcs.append({"name": "Rec%d" % i, "shape": "closurerec", "k": i + 1})
     progs = pl.catalogue(ctx)
     by = {}
     for k in sorted(progs):
